@@ -38,7 +38,12 @@ type out struct {
 
 func pat(i int64) byte { return byte(i%251) + 1 }
 
+// scale maps abstract lengths (units of a chunk of c) to bytes with payload p, keeping 0 < 1 < p-1 < p
+// apart.  For p < 3 that is impossible; those payloads run the vectors with c == p unscaled.
 func scale(x, c int, p int) int {
+	if p < 3 {
+		return x
+	}
 	q, r := x/c, x%c
 	f := 0
 	switch {
@@ -271,6 +276,9 @@ func main() {
 		for mi, ms := range msizes {
 			for oi, off := range offsets {
 				if !*full && (mi+oi+i)%2 == 1 {
+					continue
+				}
+				if pl := int(ms) - 153; pl < 3 && v.Chunk != pl {
 					continue
 				}
 				run(&v, ms, off, o)
